@@ -15,7 +15,7 @@ const char *rk_names[] = { "data", "data_ttl5", "data_ttl0", "nodata", "nodata_n
                            "refused", "notimp", "formerr_noopt", "formerr_opt", "tc", "malformed", "empty", "ck_none", "ck_valid",
                            "ck_valid2", "ck_wrongclient", "badcookie", "badcookie_bare", "cname_data", "data_mixed", "data_multi", "data_soa", "notauth" };
 const char *fg_names[] = { "wrongid", "wrongname", "wrongtype", "wrongclass", "caseflip", "wrongsrc", "othersock", "nocookie", "badclientcookie", "wrongsrc-framed" };
-const char *fs_names[] = { "socket", "setsockopt", "bind", "connect", "getsockname", "send_refused", "send_wouldblock", "send_short", "recv_reset", "send_eintr", "recv_eintr" };
+const char *fs_names[] = { "socket", "setsockopt", "bind", "connect", "getsockname", "send_refused", "send_wouldblock", "send_short", "recv_reset", "send_eintr", "recv_eintr", "send_enobufs" };
 
 static std::string fmt(const char *f, ...)
 {
@@ -490,6 +490,13 @@ static ares_ssize_t s_sendto(ares_socket_t fd, const void *buf, size_t len, int,
     w->log(fmt("send(%d) -> EINTR", fd));
     w->net_fails.push_back({ ++w->seq, s->server, fd });
     errno = EINTR;
+    return -1;
+  }
+  if (take_fault(w, FS_SEND_ENOBUFS)) {
+    // the kernel is out of buffer space: a hard send error like any other as far as the server's health is concerned
+    w->log(fmt("send(%d) -> ENOBUFS", fd));
+    w->net_fails.push_back({ ++w->seq, s->server, fd });
+    errno = ENOBUFS;
     return -1;
   }
   if (take_fault(w, FS_SEND_WOULDBLOCK)) {
@@ -1915,12 +1922,17 @@ void World::check_invariants()
         violate("C10:conn:references-closed-fd", fmt("the channel still holds descriptor %d which is closed", pc[i].fd));
         continue;
       }
-      bool want_r = pc[i].nqueries > 0;
+      // an established TCP connection the channel keeps matters even when idle: only by watching it does the
+      // application learn that the server closed it
+      bool want_r = pc[i].nqueries > 0 || (pc[i].tcp && s->connected);
       bool want_w = pc[i].tcp && (pc[i].out_len > 0 || s->connect_pending) && pc[i].nqueries > 0;
       if (pc[i].tfo_initial) continue; // nothing announced before the first fast-open write (documented)
       bool ar = legacy ? (pc[i].fd < nfds && FD_ISSET(pc[i].fd, &r)) : s->ann_r;
       bool aw = legacy ? (pc[i].fd < nfds && FD_ISSET(pc[i].fd, &wset)) : s->ann_w;
-      if (want_r && !ar) violate("C10:interest:read-not-announced", fmt("descriptor %d carries %d outstanding queries but the application was not told to watch it for reading", pc[i].fd, pc[i].nqueries));
+      if (want_r && !ar)
+        violate("C10:interest:read-not-announced", pc[i].nqueries > 0 ? fmt("descriptor %d carries %d outstanding queries but the application was not told to watch it for reading", pc[i].fd, pc[i].nqueries)
+                                                                      : fmt("the channel keeps the idle TCP connection on descriptor %d open but the application was not told to watch it for reading", pc[i].fd));
+      if (want_r && pc[i].nqueries == 0) W("idle_tcp_connection_watched");
       if (want_w && !aw && !(cfg->pending_write_cb && pending_write_notified))
         violate("C10:interest:write-not-announced", fmt("TCP descriptor %d has %d unsent bytes / unfinished connect but write interest was not announced", pc[i].fd, pc[i].out_len));
       if (want_w) W("write_interest_needed");
